@@ -15,7 +15,17 @@ type Plan struct {
 	Tier  string
 	Seed  uint64
 	Out   *Out
-	Types []*TypeEntry
+	Types []*TypeEntry // generated inspectors (shipped, fresh, grammar)
+	Lib   []*TypeEntry // built-in inspectors
+}
+
+func (p *Plan) Builtin(name string) *TypeEntry {
+	for _, e := range p.Lib {
+		if e.Builtin == name {
+			return e
+		}
+	}
+	return nil
 }
 
 // Mode writes a MODE record (how the driver judges outcomes from here on).
@@ -60,8 +70,12 @@ func Main() {
 		fmt.Fprintln(os.Stderr, err)
 		os.Exit(2)
 	}
+	for i, e := range Builtins {
+		e.Tid = "b" + strconv.Itoa(i)
+	}
 	o.DeclareTypes(Registry)
-	run(&Plan{Prop: *prop, Tier: *tier, Seed: *seed, Out: o, Types: Registry})
+	o.DeclareTypes(Builtins)
+	run(&Plan{Prop: *prop, Tier: *tier, Seed: *seed, Out: o, Types: Registry, Lib: Builtins})
 	if err := o.Close(); err != nil {
 		fmt.Fprintln(os.Stderr, err)
 		os.Exit(2)
